@@ -39,26 +39,32 @@ pub fn duration_parse(config: &SmartCalcConfig, tokinizer: &Tokinizer, fields: &
             None => return Err("Duration type not valid".to_string())
         };
 
-        let calculated_duration = match constant_type {
-            ConstantType::Year => Duration::days(365 * duration),
+        let calculated_seconds = match constant_type {
+            ConstantType::Year => duration.checked_mul(YEAR),
             ConstantType::Month => {
                 let years = duration / 12;
                 let month = duration % 12;
 
-                Duration::days((365 * years) + (30 * month))
+                years.checked_mul(YEAR).map(|seconds| seconds + (MONTH * month))
             },
             ConstantType::Day => {
                 let years = duration / 365;
                 let month = (duration % 365) / 30;
                 let day = (duration % 365) % 30;
 
-                Duration::days((365 * years) + (30 * month) + day)
+                years.checked_mul(YEAR).map(|seconds| seconds + (MONTH * month) + (DAY * day))
             },
-            ConstantType::Week => Duration::weeks(duration),
-            ConstantType::Hour => Duration::hours(duration),
-            ConstantType::Minute => Duration::minutes(duration),
-            ConstantType::Second => Duration::seconds(duration),            
+            ConstantType::Week => duration.checked_mul(WEEK),
+            ConstantType::Hour => duration.checked_mul(HOUR),
+            ConstantType::Minute => duration.checked_mul(MINUTE),
+            ConstantType::Second => Some(duration),
             _ => return Err("Duration type not valid".to_string()) 
+        };
+
+        /* Duration keeps milliseconds internally, bigger values are not representable */
+        let calculated_duration = match calculated_seconds {
+            Some(seconds) if seconds.checked_abs().map_or(false, |seconds| seconds <= i64::MAX / 1000) => Duration::seconds(seconds),
+            _ => return Err("Duration is too big".to_string())
         };
 
         return Ok(TokenType::Duration(calculated_duration));
@@ -76,7 +82,10 @@ pub fn combine_durations(_: &SmartCalcConfig, _: &Tokinizer, fields: &BTreeMap<S
                 _ => return Err("Duration information not valid".to_string())
             };
 
-            sum_duration = sum_duration + duration;
+            sum_duration = match sum_duration.checked_add(&duration) {
+                Some(sum_duration) => sum_duration,
+                None => return Err("Duration is too big".to_string())
+            };
         }
 
         return Ok(TokenType::Duration(sum_duration));
